@@ -2,7 +2,7 @@
    (any interleaving of the caller, recvLoop/handlers, timer);  fx = true is the
    tree with the C23 fixes, fx = false the pinned tree. *)
 From Coq Require Import String.
-From V Require Import Lib.Base Lib.Hex C23.Model C23.Proofs.
+From V Require Import Lib.Base Lib.Hex C23.Model C23.Proofs C23.MultiModel C23.MultiProofs.
 
 
 (* C23_single.  For every client program, every server script (conforming or not),
@@ -210,4 +210,144 @@ Example C23_late_wire_observation :
                           LCall (GetRange p1 p1); LCbDone; LRet (GetRange p1 p1) (RErr EShutdown);
                           LCall (GetBlock p0); LWire (GetRange p1 p1); LRet (GetBlock p0) (RErr EShutdown)];
                 c_hung := false |} = true.
+Proof. vm_compute. reflexivity. Qed.
+
+(* ================= N caller goroutines contending for the busy token =================
+   [mrun true (minit progs script) ls]: progs = one program of GetBlock / GetBlockRange calls per
+   goroutine (any number of goroutines), ls = any sequence of (thread, label) steps: every interleaving
+   of the callers, recvLoop/handlers and timers (C23/MultiModel.v: each step is a step of the
+   single-caller LTS taken through the view of one thread). *)
+
+(* C23_single / C23_single_spec hold PER CALL in every schedule: g is the sequence of server messages
+   accepted between THIS call's acquireBusy and the decision of its result. *)
+Theorem C23_multi_single : forall progs script ls m i p g b,
+  mrun true (minit progs script) ls = Some m ->
+  In (i, GetBlock p, g, RBlock b) (mrets m) ->
+  g = [StartBatch; Block (Some b); BatchDone] /\ bslot b = pslot p /\ bhash b = phash p.
+Proof.
+  intros progs script ls m i p g b HR HIn.
+  destruct (minv_run ls _ _ (minv_init progs script) HR) as (_ & _ & _ & HF & _).
+  rewrite Forall_forall in HF. specialize (HF _ HIn). cbn in HF.
+  destruct HF as [HF|HF]; [discriminate|]. symmetry in HF.
+  apply spec_single_ok in HF as [-> HM]. apply matches_spec in HM. tauto.
+Qed.
+Print Assumptions C23_multi_single.
+Theorem C23_multi_single_spec : forall progs script ls m i c g r,
+  mrun true (minit progs script) ls = Some m ->
+  In (i, c, g, r) (mrets m) ->
+  match c with
+  | GetBlock p => r = RErr EShutdown \/ r = spec_single p g
+  | GetRange _ _ => r = ROk \/ r = RErr ENotFound \/ r = RErr EShutdown
+  end.
+Proof.
+  intros progs script ls m i c g r HR HIn.
+  destruct (minv_run ls _ _ (minv_init progs script) HR) as (_ & _ & _ & HF & _).
+  rewrite Forall_forall in HF. specialize (HF _ HIn). cbn in HF. destruct c; exact HF.
+Qed.
+
+(* Mutual exclusion: at most one goroutine is between acquireBusy and the decision of its result, it is
+   the one that performed the last acquireBusy, and the token is held; a request is written (LWire)
+   only by that goroutine and only when no batch is outstanding (protocol Idle); while a batch is
+   outstanding the token is held (HFail = the failing handler has released it and is stopping the protocol). *)
+Theorem C23_multi_mutex : forall progs script ls m,
+  mrun true (minit progs script) ls = Some m ->
+  (forall j k tj tk, nth_error (ths m) j = Some tj -> nth_error (ths m) k = Some tk ->
+     inside (tpc tj) = true -> inside (tpc tk) = true -> j = k)
+  /\ (forall k tk, nth_error (ths m) k = Some tk -> inside (tpc tk) = true -> owner m = Some k /\ busy (sh m) = true)
+  /\ (forall i c m', mstep true m (i, LWire c) = Some m' ->
+        owner m = Some i /\ pst (sh m) = PIdle /\ pst (sh m') = PBusy /\ wire (sh m') = wire (sh m) ++ [c])
+  /\ (stopped (sh m) = false -> pst (sh m) <> PIdle -> hp (sh m) <> HFail -> busy (sh m) = true).
+Proof.
+  intros progs script ls m HR.
+  pose proof (minv_run ls _ _ (minv_init progs script) HR) as MI.
+  pose proof MI as (NF & KI & LO & MR & DIS).
+  assert (A : forall k tk, nth_error (ths m) k = Some tk -> inside (tpc tk) = true -> owner m = Some k /\ busy (sh m) = true).
+  { intros k tk Ek Ik. destruct DIS as [[NI CO]|(k0 & tk0 & Ek0 & Ik0 & Ow & NI & CO & GI)].
+    - rewrite (NI _ _ Ek) in Ik. discriminate.
+    - destruct (Nat.eq_dec k k0) as [->|N]; [|rewrite (NI _ _ N Ek) in Ik; discriminate].
+      split; [exact Ow|]. exact (inside_busy _ CO Ik0). }
+  split; [|split; [exact A|split]].
+  - intros j k tj tk Ej Ek Ij Ik. destruct (A _ _ Ej Ij) as [O1 _]. destruct (A _ _ Ek Ik) as [O2 _]. congruence.
+  - intros i c m' Hs. unfold mstep in Hs. destruct (nth_error (ths m) i) as [ti|] eqn:Ei; [|discriminate].
+    destruct (step true (view ti (sh m)) (LWire c)) as [s'|] eqn:Es; [|discriminate]. injection Hs as <-. cbn [sh].
+    cbn in Es. destruct (tpc ti) eqn:Ep; try discriminate Es. destruct (pst (sh m)) eqn:EP; try discriminate Es.
+    destruct (negb (stopped (sh m)) && call_eqb c c0) eqn:EC; [|discriminate Es]. injection Es as <-.
+    apply andb_true_iff in EC as [_ EC]. apply call_eqb_eq in EC. subst c0.
+    assert (Ii : inside (tpc ti) = true) by (rewrite Ep; reflexivity).
+    destruct (A _ _ Ei Ii) as [O _]. repeat split; auto.
+  - apply minv_batch_busy; exact MI.
+Qed.
+Print Assumptions C23_multi_mutex.
+
+(* C23_range_log per call: in every reachable state the callbacks invoked since the last acquireBusy
+   (performed by goroutine [owner m]) are the in-order image of the server messages accepted since then;
+   none in GetBlock mode.  Callbacks of one call never mix with another call's. *)
+Theorem C23_multi_range_log : forall progs script ls m,
+  mrun true (minit progs script) ls = Some m ->
+  cblog (sh m) ++ pendingcb (hp (sh m)) = cbbase (sh m) ++ (if usecb (sh m) then cbs_of (got (sh m)) else []).
+Proof.
+  intros progs script ls m HR. destruct (minv_run ls _ _ (minv_init progs script) HR) as (_ & KI & _). exact KI.
+Qed.
+
+(* No caller is starved: as long as any goroutine has a call outstanding or still to make some step is
+   enabled (no deadlock on the token), every run is finite, and a run that cannot be extended has
+   returned every call of every goroutine.  (Server scripts of any shape; when the server answers each
+   request no timer step is needed, but they are allowed.) *)
+Theorem C23_multi_total : forall progs script ls m,
+  mrun true (minit progs script) ls = Some m ->
+  ((exists j t, nth_error (ths m) j = Some t /\ tpending t = true) -> exists il m', mstep true m il = Some m')
+  /\ length ls <= 10 * ncalls_of progs + 3 * length script + 2
+  /\ ((forall il, mstep true m il = None) ->
+        (forall j t, nth_error (ths m) j = Some t -> tpc t = CIdle /\ ttodo t = []) /\ length (mrets m) = ncalls_of progs).
+Proof.
+  intros progs script ls m HR.
+  pose proof (minv_run ls _ _ (minv_init progs script) HR) as MI.
+  assert (P : (exists j t, nth_error (ths m) j = Some t /\ tpending t = true) -> exists il m', mstep true m il = Some m')
+    by (apply mprogress; exact MI).
+  split; [exact P|]. split.
+  - pose proof (mrun_bound true ls _ _ HR) as B. rewrite mmu_init in B. lia.
+  - intros HN.
+    assert (Q : forall j t, nth_error (ths m) j = Some t -> tpc t = CIdle /\ ttodo t = []).
+    { intros j t Hj. destruct (tpending t) eqn:E.
+      - destruct P as (il & m' & Hs); [eauto|]. rewrite HN in Hs. discriminate.
+      - unfold tpending in E. destruct (tpc t); try discriminate. destruct (ttodo t); [auto|discriminate]. }
+    split; [exact Q|].
+    pose proof (mcalls_run true ls _ _ HR) as NC. rewrite mcalls_init in NC. unfold mcalls in NC.
+    rewrite sumf_zero in NC; [lia|]. intros j t Hj. destruct (Q _ _ Hj) as [-> ->]. reflexivity.
+Qed.
+Print Assumptions C23_multi_total.
+
+(* non-vacuity: two goroutines; goroutine 1 calls while goroutine 0 holds the token and is served second;
+   each gets its own block *)
+Definition pA : point := {| pslot := 159835207; phash := hx "27807a70"%string |}.
+Definition pB : point := {| pslot := 76204984; phash := hx "db19fcfa"%string |}.
+Example C23_multi_nonvacuous : exists m,
+  mrun true (minit [[GetBlock pA]; [GetBlock pB]] [StartBatch; Block (Some bA); BatchDone; StartBatch; Block (Some bB); BatchDone])
+    [(0, LCall (GetBlock pA)); (0, LAcquire); (1, LCall (GetBlock pB)); (0, LWire (GetBlock pA)); (1, LDeliver); (0, LRvStart);
+     (0, LDeliver); (0, LRvBlock); (1, LDeliver); (0, LRvDone); (1, LAcquire); (1, LWire (GetBlock pB)); (0, LRet (GetBlock pA) (RBlock bA));
+     (0, LDeliver); (1, LRvStart); (1, LDeliver); (1, LRvBlock); (1, LDeliver); (1, LRvDone); (1, LRet (GetBlock pB) (RBlock bB))] = Some m
+  /\ mrets m = [(0, GetBlock pA, [StartBatch; Block (Some bA); BatchDone], RBlock bA);
+                (1, GetBlock pB, [StartBatch; Block (Some bB); BatchDone], RBlock bB)]
+  /\ (forall il, mstep true m il = None -> True).
+Proof. eexists. split; [vm_compute; reflexivity|]. split; [reflexivity|auto]. Qed.
+(* ... and acquireBusy by the second goroutine is NOT enabled while the first holds the token *)
+Example C23_multi_lock_blocks : forall m,
+  mrun true (minit [[GetBlock pA]; [GetBlock pB]] [StartBatch])
+    [(0, LCall (GetBlock pA)); (0, LAcquire); (1, LCall (GetBlock pB))] = Some m -> mstep true m (1, LAcquire) = None.
+Proof. intros m H. vm_compute in H. injection H as <-. vm_compute. reflexivity. Qed.
+(* a concurrent history as the harness records it: calls of both goroutines logged up front, the peer read
+   request B first (mc_order = [1; 0]) *)
+Example C23_multi_history :
+  mcheck_case {| mc_progs := [[GetBlock pA]; [GetBlock pB]];
+                 mc_script := [StartBatch; Block (Some bB); BatchDone; StartBatch; Block (Some bA); BatchDone];
+                 mc_order := [1; 0];
+                 mc_obs := [OCall 0 (GetBlock pA); OCall 1 (GetBlock pB); OWire (GetBlock pB); ORet 1 (GetBlock pB) (RBlock bB);
+                            OWire (GetBlock pA); ORet 0 (GetBlock pA) (RBlock bA)] |} = true.
+Proof. vm_compute. reflexivity. Qed.
+(* ... and a history in which a call got the other call's block is rejected *)
+Example C23_multi_history_foreign :
+  mcheck_case {| mc_progs := [[GetBlock pA]; [GetBlock pB]];
+                 mc_script := [StartBatch; Block (Some bB); BatchDone; StartBatch; Block (Some bA); BatchDone];
+                 mc_order := [1; 0];
+                 mc_obs := [OCall 0 (GetBlock pA); OCall 1 (GetBlock pB); OWire (GetBlock pB); ORet 0 (GetBlock pA) (RBlock bB)] |} = false.
 Proof. vm_compute. reflexivity. Qed.
